@@ -81,9 +81,9 @@ func UserAddress(i int) sdk.AccAddress {
 
 // accountBook maps addresses <-> indices.
 type accountBook struct {
-	list  []Account               // users then modules, ascending index
-	byHex map[string]int          // hex(addr bytes) -> index
-	addrs map[int]sdk.AccAddress  // index -> address
+	list  []Account              // users then modules, ascending index
+	byHex map[string]int         // hex(addr bytes) -> index
+	addrs map[int]sdk.AccAddress // index -> address
 }
 
 func newAccountBook(numUsers int) *accountBook {
